@@ -339,6 +339,13 @@ class Peer:
         self._neighbor = restart_neighbor
         self._delay.reset()
 
+        # As in reconfigure(): while the session is down nothing consumes .previous before the next
+        # reload replaces it, and the routes removed from the configuration would stay in the adj-rib-out
+        if restart_neighbor and self.fsm != FSM.ESTABLISHED and restart_neighbor.rib:
+            previous = restart_neighbor.previous.routes if restart_neighbor.previous else []
+            restart_neighbor.rib.outgoing.replace_reload(previous, restart_neighbor.routes)
+            restart_neighbor.previous = None
+
     def reconfigure(self, restart_neighbor: 'Neighbor' | None = None) -> None:
         # we want to update the route which were in the configuration file
         self._neighbor = restart_neighbor
